@@ -223,6 +223,9 @@ func getParentNonPayloadFieldBounds(buf []byte, hdrFrom, hdrTo int) (iprotobuf.F
 
 	buf = buf[:hdrFrom+splitf.To]
 	off := hdrFrom + splitf.ValueFrom
+	if off == len(buf) { // empty split header
+		return idf, sigf, hdrf, nil
+	}
 
 	var prevNum protowire.Number
 loop:
